@@ -96,6 +96,10 @@ pub struct ShellEnvironment {
     export_variables_on_modification: bool,
     /// Count of total entries (may include duplicates with shadowed variables).
     entry_count: usize,
+    /// Verification hook: identity of this environment in trace events (fresh for every clone).
+    #[cfg(brush_verif)]
+    #[cfg_attr(feature = "serde", serde(default))]
+    verif_id: crate::verif::Identity,
 }
 
 impl Default for ShellEnvironment {
@@ -111,7 +115,15 @@ impl ShellEnvironment {
             scopes: vec![(EnvironmentScope::Global, ShellVariableMap::default())],
             export_variables_on_modification: false,
             entry_count: 0,
+            #[cfg(brush_verif)]
+            verif_id: crate::verif::Identity::default(),
         }
+    }
+
+    /// Verification hook: identity and current depth of the scope stack.
+    #[cfg(brush_verif)]
+    pub fn verif_state(&self) -> (u64, usize) {
+        (self.verif_id.0, self.scopes.len())
     }
 
     /// Pushes a new scope of the given type onto the environment's scope stack.
@@ -121,6 +133,16 @@ impl ShellEnvironment {
     /// * `scope_type` - The type of scope to push.
     pub fn push_scope(&mut self, scope_type: EnvironmentScope) {
         self.scopes.push((scope_type, ShellVariableMap::default()));
+        #[cfg(brush_verif)]
+        #[allow(clippy::cast_possible_wrap)]
+        crate::verif::event_s(
+            "scope_push",
+            &[
+                ("env", crate::verif::i(self.verif_id.0)),
+                ("depth", self.scopes.len() as i64),
+            ],
+            &[("kind", &scope_type.to_string())],
+        );
     }
 
     /// Pops the top-most scope off the environment's scope stack.
@@ -129,6 +151,25 @@ impl ShellEnvironment {
     ///
     /// * `expected_scope_type` - The type of scope that is expected to be atop the stack.
     pub fn pop_scope(&mut self, expected_scope_type: EnvironmentScope) -> Result<(), error::Error> {
+        #[cfg(brush_verif)]
+        #[allow(clippy::cast_possible_wrap)]
+        crate::verif::event_s(
+            "scope_pop",
+            &[
+                ("env", crate::verif::i(self.verif_id.0)),
+                ("depth", self.scopes.len() as i64 - 1),
+            ],
+            &[
+                ("kind", &expected_scope_type.to_string()),
+                (
+                    "top",
+                    &self
+                        .scopes
+                        .last()
+                        .map_or_else(|| "none".to_owned(), |s| s.0.to_string()),
+                ),
+            ],
+        );
         // TODO(env): Should we panic instead on failure? It's effectively a broken invariant.
         match self.scopes.pop() {
             Some((actual_scope_type, _)) if actual_scope_type == expected_scope_type => Ok(()),
